@@ -25,7 +25,7 @@ def gen_cases(ctx):
     r = ctx.rng
     cases = []
     for ind in KINDS:
-        periods = [1, 2, 3, 5, 9, 16] + ([r.randint(17, 64)] if not ctx.thorough else [r.randint(17, 64) for _ in range(4)])
+        periods = [1, 2, 3, 5, 9, 16] + ([r.randint(17, 64)] if not ctx.thorough else r.sample(range(17, 65), 4))
         for p in periods:
             for rep in range(3 if not ctx.thorough else 8):
                 n = 3 * p + 20
